@@ -222,11 +222,15 @@ fn check_block(what: &str, heap: usize, p: usize, size: usize, al: usize) -> R<(
 
 /// After a release: the block must be gone and the allocator monitor silent.
 fn check_released(what: &str, heap: usize) -> R {
+    check_released_p(what, heap, "C05,C01")
+}
+
+fn check_released_p(what: &str, heap: usize, props: &'static str) -> R {
     if shadow::active() {
-        ensure!(shadow::live_layout(heap).is_none(), "C05,C01", "layout", "{}: block {:#x} was not returned to the allocator", what, heap);
+        ensure!(shadow::live_layout(heap).is_none(), props, "layout", "{}: block {:#x} was not returned to the allocator", what, heap);
     }
     if let Some(f) = shadow::take_findings().first() {
-        return viol("C05", "layout", format!("{}: allocator monitor: {:?}", what, f));
+        return viol(props, "layout", format!("{}: allocator monitor: {:?}", what, f));
     }
     let f = tk::take_findings();
     if !f.is_empty() {
@@ -1036,7 +1040,7 @@ pub fn case_union<A: Sh, B: Sh>(variant: usize, script: u64, st: &mut SStats) ->
     });
     // now only `unions` own the variant's allocation; the other allocation must be gone already
     let (mine, gone) = if first { (ha, hb) } else { (hb, ha) };
-    check_released(&format!("{}: the other variant's allocation", what), gone)?;
+    check_released_p(&format!("{}: the other variant's allocation", what), gone, "C12,C05")?;
     if shadow::active() {
         ensure!(shadow::live_layout(mine).is_some(), "C12,C01", "union", "{}: the union's allocation was freed while unions still own it", what);
     }
@@ -1047,7 +1051,7 @@ pub fn case_union<A: Sh, B: Sh>(variant: usize, script: u64, st: &mut SStats) ->
         }
         shadow::tracked(|| drop(u));
     }
-    check_released(&format!("{}: last release through the union", what), mine)?;
+    check_released_p(&format!("{}: last release through the union", what), mine, "C12,C05")?;
     ensure!(tk::z_live() == z0, "C12,C01", "union", "{}: zero-sized payload with destructor not destroyed exactly once ({} alive)", what, tk::z_live() - z0);
     if shadow::active() {
         let lb = shadow::live_blocks();
